@@ -143,13 +143,19 @@ def single_miss(rng, rule, packet, kind):
     k = rng.choice(ks); pf = packet['fields'][k]; v = pf['value'][2:]; L = len(v)
     i = rng.randrange(L); w = v[:i] + ('1' if v[i] == '0' else '0') + v[i + 1:]
     f = r['fields'][k]
+    # the same NUMBER on another width is another value: v with zeros in front, or without its leading zeros
+    same_number = ['0' * rng.randrange(1, 17) + v] + ([v.lstrip('0') or '0'] if v.startswith('0') and len(v) > 1 else [])
     if kind == 'eq':
-        f.update(mo='eq', cda='ns', tv=('b', abuf(w, rng.choice('LLR'))), len=L)
+        if rng.random() < 0.3: w = rng.choice(same_number)
+        f.update(mo='eq', cda='ns', tv=('b', abuf(w, rng.choice('LLR'))), len=rng.choice([L, len(w)]))
     elif kind == 'msb':
         x = rng.randrange(i + 1, L + 1)
         f.update(mo='msb', cda='lsb', tv=('b', abuf(w[:x], rng.choice('LLR'))), len=rng.choice([L, L, 0]))
     else:
         m = [(val, idx) for (val, idx) in gen_mapping(rng, w) if val[2:] != v]
+        if rng.random() < 0.5:
+            x = rng.choice(same_number)
+            m = [(val, idx) for (val, idx) in gen_mapping(rng, x, side='L' if rng.random() < 0.7 else None) if val[2:] != v]
         f.update(mo='mm', cda='ms', tv=('m', m), len=L)
     return r
 
